@@ -22,12 +22,16 @@ for d in sorted(glob.glob(src + '/C*/[0-9]*')):
         shutil.copy(f, dst + '/' + os.path.basename(f) + '.txt')  # .txt so that go tooling never picks it up inside /verif
     meta = json.load(open(d + '/meta.json'))
     assert subprocess.run(['git', '-C', '/repo', 'diff', '--quiet']).returncode == 0, '/repo dirty'
-    subprocess.run(['git', '-C', '/repo', 'apply', d + '/patch.diff'], check=True)
+    # patches may have been written against an earlier HEAD of /repo (before a later fix: commit)
+    if subprocess.run(['git', '-C', '/repo', 'apply', d + '/patch.diff'], capture_output=True).returncode != 0:
+        if subprocess.run(['git', '-C', '/repo', 'apply', '-C1', d + '/patch.diff'], capture_output=True).returncode != 0:
+            print(name, 'does not apply to the current HEAD of /repo (conflicts with a later fix: commit); detection record left as it was')
+            continue
     tmp = tempfile.mkdtemp()
     try:
         out = subprocess.run(['bin/wcheck', '-prop', 'all', '-tier', 'quick', '-evdir', tmp], capture_output=True, text=True).stdout
     finally:
-        subprocess.run(['git', '-C', '/repo', 'checkout', '--', '.']); subprocess.run(['git', '-C', '/repo', 'clean', '-fdq'])
+        subprocess.run(['git', '-C', '/repo', 'reset', '-q', '--hard', 'HEAD']); subprocess.run(['git', '-C', '/repo', 'clean', '-fdq'])
         shutil.rmtree(tmp)
     rules = {}
     for ln in out.splitlines():
